@@ -1,7 +1,7 @@
 package qbft
 
-// C14 (consensus wire message): every optional / nested field of a QBFTConsensusMsg absent, one at a time and in
-// every combination of two, signed afresh by the sending peers after the fields were removed (a cluster peer can
+// C14 (consensus wire message): every optional / nested field of a QBFTConsensusMsg absent (and the hash fields
+// also present with 1, 31 and 33 bytes), one at a time and in every combination of two, signed afresh by the sending peers after the fields were removed (a cluster peer can
 // sign anything) or carrying the signatures of the complete message, in memory and after a wire round trip.
 // Path: protonil.Check (what p2p.RegisterHandler does with every request) -> the real Consensus.handle ->
 // the accepted Msg from the receive buffer -> every accessor of the qbft.Msg interface, re-encoding
@@ -69,6 +69,16 @@ func c14nFields() []c14nField {
 		{"msg.value_hash", false, msg(func(q *pbv1.QBFTMsg) { q.ValueHash = nil })},
 		{"msg.prepared_value_hash", false, msg(func(q *pbv1.QBFTMsg) { q.PreparedValueHash = nil })},
 		{"msg.signature", true, msg(func(q *pbv1.QBFTMsg) { q.Signature = nil })},
+		// partial values of the byte fields: present but shorter / longer than a hash
+		{"msg.value_hash=1-byte", false, msg(func(q *pbv1.QBFTMsg) { q.ValueHash = []byte{7} })},
+		{"msg.prepared_value_hash=31-bytes", false, msg(func(q *pbv1.QBFTMsg) {
+			if len(q.PreparedValueHash) > 31 {
+				q.PreparedValueHash = q.PreparedValueHash[:31]
+			}
+		})},
+		{"justification[0].prepared_value_hash=33-bytes", false, func(m *pbv1.QBFTConsensusMsg) {
+			c14nJust(m, 0, func(j *pbv1.QBFTMsg) { j.PreparedValueHash = append(append([]byte{}, j.PreparedValueHash...), 1) })
+		}},
 		{"justification", false, func(m *pbv1.QBFTConsensusMsg) { m.Justification = nil }},
 		{"justification[0]", false, func(m *pbv1.QBFTConsensusMsg) {
 			if len(m.Justification) > 0 {
